@@ -567,7 +567,59 @@ class World:
         return None
 
     def comprehension(self, eng, st, e):
-        raise EngineError('%s:%d: comprehension outside the supported shapes' % (eng.rel, e.lineno))
+        """[f(x) for x in seq]  (one generator, no filter, f without side effects, possibly raising): the element
+        expression is evaluated once for a generic position; the result is the array of its values, or the
+        exception of some position"""
+        if len(e.generators) != 1 or e.generators[0].ifs or not isinstance(e.generators[0].target, ast.Name):
+            raise EngineError('%s:%d: comprehension outside the supported shapes' % (eng.rel, e.lineno))
+        g = e.generators[0]
+        out = []
+        for r in eng.ev(g.iter, st):
+            if r.exc is not None:
+                out.append(r)
+                continue
+            s0, seq = r.st, r.val
+            if not (seq.kind == 'ref' and isinstance(s0.node(seq), Arr)):
+                raise EngineError('%s:%d: comprehension over %s' % (eng.rel, e.lineno, seq.kind))
+            n = s0.node(seq)
+            k = fresh('ck', I)
+            sk = s0.copy()
+            sk.env = dict(sk.env)
+            sk.env[g.target.id] = eng.wrap(n.elem, n.a[k])
+            sk.assume(0 <= k, k < n.n)
+            base_len = len(sk.pc)
+            heap0 = dict(sk.heap)
+            rs = eng.ev(e.elt, sk)
+            normal = [x for x in rs if x.exc is None]
+            excs = [x for x in rs if x.exc is not None]
+            if not normal or any(x.st.heap.get(h) is not v for x in normal for h, v in heap0.items()):
+                raise EngineError('%s:%d: comprehension element must be side-effect free with a normal outcome'
+                                  % (eng.rel, e.lineno))
+            kinds = {x.val.kind for x in normal}
+            if len(kinds) != 1 or kinds.pop() not in ('int', 'real', 'bool', 'str'):
+                raise EngineError('%s:%d: comprehension element kinds %s' % (eng.rel, e.lineno, sorted(x.val.kind for x in normal)))
+            # several normal outcomes (mutually exclusive path conditions): the element is their case distinction
+            conds = [z3.And(x.st.pc[base_len:] or [z3.BoolVal(True)]) for x in normal]
+            ok = z3.Or(conds)
+            term = normal[-1].val.term
+            for cnd, x in list(zip(conds, normal))[-2::-1]:
+                term = z3.If(cnd, x.val.term, term)
+            val = eng.wrap(normal[0].val.kind, term)
+            q = fresh('q', I)
+            sn = s0.copy()
+            arr = fresh('comp', z3.ArraySort(I, eng.sort_of_kind(val.kind)))
+            sn.assume(z3.ForAll([q], z3.Implies(z3.And(0 <= q, q < n.n),
+                                                z3.And(z3.substitute(ok, (k, q)), arr[q] == z3.substitute(val.term, (k, q)))),
+                                patterns=[arr[q]]))
+            if eng.feasible(sn):
+                out.append(Result(sn, sn.alloc(Arr(val.kind, arr, n.n, 'list'))))
+            for x in excs:
+                # some position raises: k becomes its (Skolem) witness
+                sx = s0.copy()
+                sx.assume(0 <= k, k < n.n, *x.st.pc[base_len:])
+                if eng.feasible(sx):
+                    out.append(Result(sx, exc=x.exc, flow='raise'))
+        return out
 
     def yield_stmt(self, eng, st, s):
         """@contextmanager generator: the with-block runs at the yield.  Two continuations:
